@@ -20,6 +20,8 @@ def step_tags(w, ins, owner):
     elif getattr(w, 'prev_raised', False):
         base = base + ['C17']
     auto = w.flavor == 'autoref'
+    if w.cur_info.get('final_in_op') and 'C08' not in base:
+        base = base + ['C08']
     st = list(base)
     cn = list(base) + (['C08'] if auto else ['C06'])
     dn = list(base) + (['C08'] if auto else [])
@@ -84,6 +86,9 @@ def execute(w, ins):
     if info.get('fired') or info.get('final_in_op') or info.get('fault') or info.get('raised'):
         w.bg_seen += 1
     if ins['op'] in BG_OPS and r != 'skip':
+        # reordering / declaration steps are themselves what C07 / C14 judge
+        if owner == w.cfg['prop'] and w.slots and w.bg_seen:
+            w.judged_after_bg += 1
         w.bg_seen += 1
     elif r != 'skip' and w.bg_seen and relevant(w, owner, info):
         w.judged_after_bg += 1
